@@ -308,6 +308,15 @@ def mk_replay_sparse():
     return rp
 
 
+def native(tier, seed, bdir, only=None):
+    """primality test of ripser.h vs trial division (shared exhaustive-native sweep, see contracts/c10.py)"""
+    import fnmatch
+    from contracts import c10
+    if only and not fnmatch.fnmatch("native.is_prime", only):
+        return []
+    return c10.primes_native(bdir)
+
+
 def selftest():
     try:
         _bin("ripser_bits", ["-DGUDHI_FORCE_FAKE_UINT128"])
